@@ -20,7 +20,7 @@ import sys
 _real = dict(
     open=builtins.open, io_open=io.open, listdir=os.listdir, scandir=os.scandir, stat=os.stat,
     lstat=os.lstat, readlink=os.readlink, access=os.access, kill=os.kill, waitpid=os.waitpid,
-    statvfs=os.statvfs,
+    statvfs=os.statvfs, getpid=os.getpid,
 )
 real_open = _real["open"]
 
@@ -437,6 +437,13 @@ def _v_kill(pid, sig):
     return _real["kill"](pid, sig)
 
 
+def _v_getpid():
+    vk = CUR
+    if vk is not None and vk.table is not None and getattr(vk.table, "fake_getpid", None) is not None:
+        return vk.table.fake_getpid
+    return _real["getpid"]()
+
+
 def _v_waitpid(pid, flags):
     vk = CUR
     if vk is not None and vk.table is not None:
@@ -506,6 +513,7 @@ def install(psutil=None, sinks=True):
             pl.resource = ModProxy(real_res, {"prlimit": passthru(real_res.prlimit, "prlimit")})
         os.kill = _v_kill
         os.waitpid = _v_waitpid
+        os.getpid = _v_getpid
 
 
 def set_procfs(psutil, root):
